@@ -84,7 +84,7 @@ def run_once(env, built, mode, arm=None):
                 res = e1run.normalise(env.Template(built.page_src).render(ctx))
             except Exception as e:  # noqa: BLE001
                 # OSError builds str() from errno/strerror, so the annotation is looked for in args as well
-                exc_info = (type(e), str(e) + " || " + " ".join(str(a) for a in e.args), e is (arm[1] if arm else None))
+                exc_info = (type(e), str(e) + " || " + " ".join(str(a) for a in e.args), e is (arm[1] if arm else None), tuple(e.args[1:]))
             layers_after = (len(ctx.dicts), len(ctx.render_context.dicts))
     finally:
         n, log, fired = env.fp.count, list(env.fp.log), env.fp.fired
@@ -130,7 +130,11 @@ def program_fault_sweep(env, rec, prog, mode, kinds, seedinfo):
                 if r["exc"] is None:
                     rec.violation("exception-swallowed", case, {"what": f"callback {where} raised {kind} but the render returned {str(r['res'])[:120]!r}"})
                     continue
-                etype, emsg, same = r["exc"]
+                etype, emsg, same, rest_args = r["exc"]
+                # annotating the message must not drop the exception's further arguments (OSError(2, 'x') -> 'x')
+                if rest_args != tuple(failpoints.make_exc(kind).args[1:]):
+                    rec.violation("exception-arguments-lost", case, {"what": f"injected {kind} with args {failpoints.make_exc(kind).args!r}; caller sees further args {rest_args!r}"})
+                    continue
                 if etype is not type(exc):
                     rec.violation("exception-replaced", case, {"what": f"injected {type(exc).__name__} at {where}, surfaced {etype.__name__}: {emsg[:200]}"})
                     continue
